@@ -399,6 +399,10 @@ func checkC11(c *Ctx) {
 			r.Bad("C11.3", key, in.Pos(), fnName(f), "a construct that can panic or exit the process ("+construct+") is reachable from an external input entry point and is not in the reviewed table: attacker-supplied bytes can take the process down", seen[f]...)
 		})
 	}
+	// ---- C11.6 "never hangs": every lock taken on the externally reachable paths is released on all exits
+	r.Rule("C11.6", "functions reachable from external entry points release every lock they take on all paths", 10)
+	checkLockLeaks(r, "C11.6", order)
+
 	// ---- C11.5 constant-bound slicing / indexing and allocation sizes on the same reachable set
 	r.Rule("C11.5", "constant-bound slices/indexes of dynamically sized values are dominated by a length test; allocation sizes come from in-memory lengths or are bounded", 10)
 	for _, f := range order {
@@ -594,6 +598,9 @@ func overridesStoreNil(c *Ctx, fld string) bool {
 // not see (one line of reason each).
 var c11BoundsTable = []struct{ fn, construct, reason, guardFalse string }{
 	{"DecoyRegistration).IDString", "make([]byte)[…16…]", "n = hex.Encode(secret, …) is the number of bytes written, which is len(secret); the slice is taken only under !(n < 16)", "(hex.Encode(make([]byte), reg.Keys.SharedSecret) < 16)"},
+	{"prefix.Transport).tryFindReg", "data.Bytes()[prefix.Offset:(prefix.Offset + 64)]", "reached only with data.Len() >= prefix.MaxLen, and every entry of the prefix table has MaxLen >= Offset + 64 (the table invariant is decided by C04.3)", "(data.Len() < prefix.MaxLen)"},
+	{"obfs4.findMarkMac", "buf[(phi:endPos[len(buf)|maxPos] -", "endPos = min(len(buf), maxPos) by the two preceding statements and endPos - startPos >= MarkLength + MacLength (32) is tested: pos = endPos - 32 >= startPos >= 0 and pos + 16 <= endPos <= len(buf)", "((phi:endPos[len(buf)|maxPos] - startPos) < 32)"},
+	{"obfs4.findMarkMac", "buf[startPos:phi:endPos[len(buf)|maxPos]]", "startPos <= len(buf) is tested on entry, endPos = min(len(buf), maxPos), and endPos - startPos >= 32 is tested: startPos <= endPos <= len(buf)", "((phi:endPos[len(buf)|maxPos] - startPos) < 32)"},
 	{"dtls.dtlsCtx$1", "serverCert.Certificate[0]", "serverCert comes from certsFromSeed/newCertificate, which always builds Certificate as a one-element literal; it is not peer input (rawCerts[0] next to it is length-tested)", ""},
 	{"dtls.hbConn).recvLoop", "make(…, c.maxMessageSize)", "maxMessageSize is the local SCTP association.s configured MaxMessageSize (pion default 65536, changed only by local configuration), not a value negotiated with or sent by the peer", ""},
 }
